@@ -1,7 +1,16 @@
 """C02 Automatic conflict resolution is exactly the cancellation rule (spec/MergeAlgebra)."""
 import vf
 
-LEVEL = "model_checking"
+META = dict(
+    category='model_checking',
+    engine='MergeAlgebra',
+    technique='TLA+ spec MergeAlgebra: TLC exhaustive on the model + TLC-judged traces of the real trivial_merge',
+    text='TLC proves fast path = counting path and the cancellation contract TrivialOK on the model; the real trivial_merge / resolve_trivial are run on every merge over 3 values up to 7 terms x {Keep, Accept} (4/9 thorough) plus random up to 31 terms, each call judged by TLC.',
+    note='Statement leaves one zone open (same-change on, one surviving side, >=2 distinct surviving bases): either answer accepted there.',
+    design='4 C02',
+)
+READY = True
+LEVEL = META["category"]
 
 
 def nontrivial(r):
@@ -16,7 +25,7 @@ def run(ctx):
     ctx.cov["tlc_runs"].append({"run": "negative:trivial", "outcome": "fails as required (InvTrivial)"})
     trace = ctx.path("c02.ndjson")
     V, L = ctx.q((3, 7), (4, 9))
-    ctx.harness("jjconf", ["merge", "record", "--what", "c02", "--out", trace, "--seed", ctx.seed,
+    ctx.harness("merge", ["record", "--what", "c02", "--out", trace, "--seed", ctx.seed,
                            "--values", V, "--maxlen", L, "--random", ctx.q(3000, 60000)])
     j = vf.judge_records(ctx, "Trace_MergeAlgebra", trace, nontrivial_fn=nontrivial)
     recs = j["records"]
